@@ -119,6 +119,11 @@ func guardedStatements(cn *canon, list []ast.Stmt) []string {
 					rhs := ""
 					if i < len(s.Rhs) {
 						rhs = cn.str(s.Rhs[i])
+						if core.IsNil(cn.info, s.Rhs[i]) {
+							if lt := cn.info.TypeOf(l); lt != nil {
+								rhs = "zero<" + types.TypeString(lt, func(*types.Package) string { return "" }) + ">"
+							}
+						}
 					} else if len(s.Rhs) == 1 {
 						rhs = cn.str(s.Rhs[0])
 					}
